@@ -43,7 +43,9 @@ func handleClient(s *IMAPServer, conn net.Conn, state *models.ClientState) {
 		fmt.Printf("Client: %s\n", line)
 		parts := strings.Fields(line)
 		if len(parts) < 2 {
-			s.sendResponse(conn, "* BAD Invalid command format")
+			// The only field is the tag: answer with a tagged BAD so that the
+			// client sees a completion for what it sent (RFC 3501 section 7.1.3)
+			s.sendResponse(conn, fmt.Sprintf("%s BAD Invalid command format", parts[0]))
 			continue
 		}
 
